@@ -24,6 +24,9 @@ def norm(v: Any) -> Any:
     if isinstance(v, NodeV):
         return ("node", v.path)
     if isinstance(v, ObjV):
+        if v.init_args is not None and v.label.startswith("new:"):
+            a, kw = v.init_args
+            return ("call", ("ref", v.cls), tuple(norm(x) for x in a), tuple((k, norm(x)) for k, x in sorted(kw.items())))
         return ("obj", v.cls, v.label)
     if isinstance(v, FuncV):
         fn = v.fn
